@@ -146,8 +146,8 @@ void run_typed(const Execution &ex) {
     if (ex.cfg.num("table", 0)) {
         std::string s = "\"e\":\"MatchTable\",\"t\":{";
         bool first = true;
-        for (const char *re : {".*", "a", "a|b", "[^a]", "c"})
-            for (const char *name : {"a", "b", "c"}) {
+        for (const char *re : {".*", "a", "a|b", "[^a]", "c", "a|ab", "a.*?"})
+            for (const char *name : {"a", "b", "c", "ab"}) {
                 if (!first) s += ",";
                 first = false;
                 std::string n(name);
